@@ -266,12 +266,12 @@ theorem c10_accept_selected {s : Sel} (c : Nat) (hm : s.multi = true) (hne : s.s
   have : s.selected.isEmpty = false := by cases h : s.selected <;> simp_all
   simp [accept, hm, this, keys]
 
-/-- single mode or empty selection: the cursor item (its POSITION is reported as index), nothing on an
+/-- single mode or empty selection: the cursor item (with its own index, i.e. its position in the input), nothing on an
     empty list; `none` (= the panic of the source) iff the cursor is outside a non-empty list -/
 theorem c10_accept_cursor {s : Sel} (c : Nat) (h : s.multi = false ∨ s.selected = []) :
     accept s c =
       if s.listed.isEmpty then some ((keys s).map (·.2), s.selected.map (·.2))
-      else (s.listed[c]?).map (fun cur => ((keys s).map (·.2) ++ [c], s.selected.map (·.2) ++ [cur.item])) := by
+      else (s.listed[c]?).map (fun cur => ((keys s).map (·.2) ++ [cur.idx], s.selected.map (·.2) ++ [cur.item])) := by
   have : (!s.multi || s.selected.isEmpty) = true := by
     rcases h with h | h <;> simp [h]
   simp only [accept, this, Bool.true_and, keys, List.map_map]
@@ -541,7 +541,7 @@ example : Admissible {} [.append [⟨0, 1, 0⟩, ⟨1, 2, 0⟩], .toggleAll] := 
   subst h; exact ⟨fun _ => (by decide), fun _ _ => trivial⟩
 
 /-- what accept reports is what the reference derives from its set: the indices of the keys in ascending
-    `(run, index)` order, plus the cursor position when nothing is selected / in single mode -/
+    `(run, index)` order, plus the index of the cursor item when nothing is selected / in single mode -/
 theorem c10_accept_refines {st : St} {S : KSet} (c : Nat) (hsort : sortKeys S = keys st.sel)
     (hlen : S.length = numSelected st.sel) {r : List Nat × List Item} (ha : accept st.sel c = some r) :
     r.1 = specAccept st S c := by
@@ -554,7 +554,7 @@ theorem c10_accept_refines {st : St} {S : KSet} (c : Nat) (hsort : sortKeys S = 
     simp only [accept, hc, if_true] at ha
     cases hcur : st.sel.listed[c]? with
     | none => simp [hcur] at ha
-    | some cur => simp only [hcur, Option.some.injEq] at ha; subst ha; rfl
+    | some cur => simp only [hcur, Option.some.injEq] at ha; subst ha; simp
   · rw [if_neg hc]
     simp only [accept, hc, if_false, Bool.false_eq_true, Option.some.injEq] at ha
     subst ha; rfl
